@@ -76,6 +76,16 @@ def post(chk, bins, tier):
     chk.require('ieee programs', chk.counters.get('ieee_programs', 0), n // 2)
 
 
+def native_probe_sources():
+    """the whole native probe table (normal, boundary and invalid arguments of every collection/string/iterator/number
+    native): error paths of natives are where the two representations can disagree on 'same errors'"""
+    try:
+        import gen_natives
+        return [('probe%d' % i, t) for i, t in enumerate(gen_natives._table())]
+    except Exception:
+        return []
+
+
 def main():
     tier = sys.argv[sys.argv.index('--tier') + 1] if '--tier' in sys.argv else 'quick'
     variants = [('nan', []), ('nan', ['--gc', 'every:2', '--sweep', 'alt', '--alloc', 'quarantine'])]
@@ -92,7 +102,8 @@ def main():
               'arithmetic, bools, nil, undefined and objects through Value in both builds with a shared digest'),
         n_gen_quick=500, n_gen_thorough=9000, cfgs=cfgs,
         kinds=('numbers', 'core', 'scope', 'classes', 'exc', 'natives', 'alias', 'chan', 'numbers', 'strings'),
-        stat_keys=('allocs', 'steps'), requires=[('steps', 100000, 2000000)], timeout=90, post=post)
+        stat_keys=('allocs', 'steps'), requires=[('steps', 100000, 2000000)], timeout=90, post=post,
+        extra_sources=native_probe_sources())
 
 
 if __name__ == '__main__':
